@@ -5,8 +5,11 @@ proofs : lean/PyAbel/Props/C07.lean (generic two-tier cache machine: invariant p
          answer right or an exception, for all finite histories; the five modules' rule sets are lawful) and
          Props/C07Names.lean (cleanup masks match exactly their own method's file names; table regenerated from /repo);
          Props/C07Rbasex.lean (rbasex's in-memory transform caches as a machine over the six module globals: every call
-         that returns, returns matrices made from the basis, mask and regularisation it names, after any history)
-K      : rbasex sessions (calls over bases x valid-radius masks x directions x regularisations incl. ones that raise,
+         that returns, returns matrices made from the basis, mask and regularisation it names, after any history);
+         Props/C07Basex.lean (the same for basex's basis / forward / inverse caches)
+K      : basex sessions (bases [n, sigma] x direction x [reg, correction, dr] with numerically equal spellings, cleanups) vs
+         its machine: the five globals after every step, and the returned matrix vs a fresh process's;
+         rbasex sessions (calls over bases x valid-radius masks x directions x regularisations incl. ones that raise,
          cache_cleanup of each kind) on the real module vs that machine: outcome and all six globals after every step;
          seeded random histories (calls over each module's key lattice with/without basis_dir, cache_cleanup,
          basis_dir_cleanup, file damage/removal) executed on the real get_bs_cached functions and on the Lean machine:
@@ -615,6 +618,7 @@ def run(tier):
     ck.proofs("PyAbel.Props.C07")
     ck.proofs("PyAbel.Props.C07Names")
     ck.proofs("PyAbel.Props.C07Rbasex")
+    ck.proofs("PyAbel.Props.C07Basex")
     ok, log = ensure_driver()
     if ok:
         correspondence(ck, tier)
@@ -626,6 +630,8 @@ def run(tier):
     oracle_cleanup_exact(ck)
     from harness import rbxmachine
     rbxmachine.run_sessions(ck, tier)              # rbasex's in-memory transform caches vs the Lean machine of C07Rbasex
+    from harness import bxmachine
+    bxmachine.run_sessions(ck, tier)               # basex's, vs the machine of C07Basex (globals after every call, matrices vs a fresh process)
     return ck.finish()
 
 
